@@ -69,6 +69,10 @@ type kvElection struct {
 
 	// termCancel ends the context of the current leadership term (guarded by mu).
 	termCancel context.CancelFunc
+	// wroteWhileStopped: an acquisition that was in flight when the election
+	// was stopped has written the record since (guarded by mu).
+	wroteWhileStopped      bool
+	wroteWhileStoppedToken string
 
 	// runSeq counts the calls of Start (guarded by mu).
 	runSeq uint64
@@ -492,6 +496,10 @@ func (e *kvElection) becomeLeader(token string, rev uint64) {
 	// election must not claim leadership: nothing would refresh the record
 	// and nothing would ever clear the claim.
 	if e.ctx == nil || e.ctx.Err() != nil {
+		// The record this acquisition wrote is the instance's, and nobody will
+		// lead on it: a graceful shutdown under way releases it (DeleteKey).
+		e.wroteWhileStopped = true
+		e.wroteWhileStoppedToken = token
 		return
 	}
 
@@ -956,6 +964,7 @@ func (e *kvElection) StopWithContext(ctx context.Context, opts StopOptions) erro
 
 	// (the claim goes first, as in Stop)
 	e.isLeader.Store(false)
+	e.wroteWhileStopped = false
 
 	if e.cancel != nil {
 		e.cancel()
@@ -1035,18 +1044,24 @@ func (e *kvElection) StopWithContext(ctx context.Context, opts StopOptions) erro
 		e.ctx = nil
 		e.ctxForLog.Store(nil)
 	}
+	// An acquisition that was in flight when this call came may have written
+	// the record meanwhile (its goroutine has been waited for): the instance
+	// owns that record although it never led on it.
+	ownsRecord := wasLeader || e.wroteWhileStopped
+	orphanToken := e.wroteWhileStoppedToken
+	e.wroteWhileStopped = false
 	e.mu.Unlock()
 
 	log := e.getLogger()
 	log.Info("election_stopped",
 		append(e.logWithContext(ctx),
 			zap.Bool("was_leader", wasLeader),
-			zap.Bool("key_deleted", opts.DeleteKey && wasLeader),
+			zap.Bool("key_deleted", opts.DeleteKey && ownsRecord),
 		)...,
 	)
 
 	e.verifYield("stop.beforedelete")
-	if opts.DeleteKey && wasLeader {
+	if opts.DeleteKey && ownsRecord {
 		// The store may hang; do not let the deletion outlive the deadline.
 		var err error
 		if remaining := time.Until(deadline); remaining <= 0 {
@@ -1055,13 +1070,38 @@ func (e *kvElection) StopWithContext(ctx context.Context, opts StopOptions) erro
 			err = ctx.Err()
 		} else {
 			delErr := make(chan error, 1)
-			go func() { delErr <- e.kv.Delete(e.key) }()
+			// 0: not decided, 1: the deletion is being issued, 2: the call gave up waiting
+			var delState atomic.Int32
+			go func() {
+				if !wasLeader {
+					// The record was written by an acquisition that never led: nothing
+					// has watched over it since. Delete it only if it is still that
+					// record.
+					entry, err := e.kv.Get(e.key)
+					if err != nil {
+						delErr <- err
+						return
+					}
+					var p leadershipPayload
+					if entry == nil || json.Unmarshal(entry.Value(), &p) != nil || p.ID != e.cfg.InstanceID || p.Token != orphanToken {
+						delErr <- fmt.Errorf("the record is not this instance's any more")
+						return
+					}
+					// (nothing new is issued once the call has returned)
+					if !delState.CompareAndSwap(0, 1) {
+						return
+					}
+				}
+				delErr <- e.kv.Delete(e.key)
+			}()
 			select {
 			case err = <-delErr:
 			case <-time.After(remaining):
 				err = NewTimeoutError("key deletion", timeout, nil)
+				delState.CompareAndSwap(0, 2)
 			case <-ctx.Done():
 				err = ctx.Err()
+				delState.CompareAndSwap(0, 2)
 			}
 		}
 		if err != nil {
